@@ -25,12 +25,19 @@ func (s vpSource) Process(ctx *shared.PlannerContext, in chan []shared.LogEntry)
 func VH_C12_fixperiod_arith() {
 	vrt.CheckLeaks()
 	vrt.Unwind(64)
-	fromSec := vrt.Int64("start-seconds")
-	toSec := vrt.Int64("end-seconds")
-	vrt.Assume(fromSec >= 0)
-	vrt.Assume(fromSec < 4000000000)
+	// start from a table (epoch, a typical instant not aligned to the range, near the end of the 32-bit era);
+	// end = start + a window of -3..N whole seconds (reversed windows included)
+	var fromSec int64
+	switch vrt.Choice("start-class", 3) {
+	case 0:
+		fromSec = 0
+	case 1:
+		fromSec = 1700000003
+	default:
+		fromSec = 3999999990
+	}
+	toSec := fromSec + int64(vrt.Len("window-seconds", -3, int(vpMaxSteps())))
 	vrt.Assume(toSec >= 0)
-	vrt.Assume(toSec < 4000000000)
 	// step: symbolic-by-symbolic 64-bit division does not finish in any available solver, so the step comes
 	// from a table of representative values of each class (zero, negative, sub-second, around the 5 s range
 	// duration, larger than the window); start/end/timestamps stay symbolic.
@@ -57,10 +64,6 @@ func VH_C12_fixperiod_arith() {
 	if vrt.KnownFinding("C12-end-before-start", toSec < fromSec) {
 		return
 	}
-	if stepMs > 0 {
-		// result size is bounded by the engine's allocation limit: the number of steps in the window is bounded (the slice length is concretised by forking)
-		vrt.Assume((toSec-fromSec)*1000/stepMs < vpMaxSteps())
-	}
 	ctx := &shared.PlannerContext{
 		From: time.Unix(fromSec, 0),
 		To:   time.Unix(toSec, 0),
@@ -77,7 +80,9 @@ func VH_C12_fixperiod_arith() {
 	go func() {
 		var batch []shared.LogEntry
 		for i := 0; i < n; i++ {
-			ts := vrt.Int64("entry-ts-ns")
+			ts := vrt.Int64("entry-ts-ns") // any instant from 10 s before the window to 10 s after it
+			vrt.Assume(ts >= (fromSec-10)*1000000000)
+			vrt.Assume(ts <= (toSec+10)*1000000000)
 			batch = append(batch, shared.LogEntry{TimestampNS: ts, Fingerprint: uint64(1 + vrt.Choice("entry-series", 2)), Value: 1})
 		}
 		up <- batch
